@@ -235,13 +235,12 @@ mod k {
         kani::cover!(true, "every call returned");
     }
 
-    /// VERIF: {"p":"C19","tier":"quick","fns":["config::type_to_name"],"bounds":"the empty sequence `[]` (Yaml::Array(vec![])) and a sequence holding it `[[]]`","oracle":"returns a name, no panic (this is the function every typed parser calls to describe a wrongly typed value)","stubs":["alloc::fmt::format -> empty string (message text only)"],"covers":1,"unwind":4}
+    /// VERIF: {"p":"C19","tier":"quick","fns":["config::type_to_name"],"bounds":"the empty sequence `[]` (Yaml::Array(vec![])) and a sequence holding it `[[]]`","oracle":"returns a name, no panic (this is the function every typed parser calls to describe a wrongly typed value)","stubs":["alloc::fmt::format -> empty string (message text only)"],"covers":0,"unwind":4}
     #[kani::proof]
     #[kani::unwind(4)]
     #[kani::stub(alloc::fmt::format, empty_format)]
     fn c19_type_to_name_empty_array() {
         let nested: bool = kani::any();
-        kani::cover!(nested, "[[]]");
         if nested {
             type_to_name_on(KIND_ARR_ARR_EMPTY)
         } else {
@@ -250,8 +249,11 @@ mod k {
     }
 
     // every typed scalar parser on one value of kind k: right type => Ok(Some), Null => Ok(None),
-    // anything else => Err(InvalidConfig)
-    fn scalar_parsers_on(k: u8) {
+    // anything else => Err(InvalidConfig).  `deep`: also run the composed parsers (parse_duration and the
+    // address parsers = parse_string(..).and_then(..)); CBMC only gets through them where parse_string
+    // SUCCEEDS (kinds Null and String) - on its error path the and_then continuation is explored with an
+    // unconstrained string and does not finish (measured: Integer / `[~]` time out at 120 s).
+    fn scalar_parsers_on(k: u8, deep: bool) {
         let y = yaml_of_kind(k);
         let is_null = k == KIND_NULL;
         let r = parse_i64("k", &y);
@@ -289,81 +291,85 @@ mod k {
             _ => assert!(is_invalid_config(&r), "parse_boolean refuses a non-boolean with InvalidConfig"),
         }
         std::mem::forget(r);
-        let r = parse_duration("k", &y);
-        match &y {
-            Yaml::Integer(_) => assert!(matches!(r, Ok(Some(_))), "parse_duration takes integers"),
-            Yaml::Null => assert!(matches!(r, Ok(None)), "parse_duration: null is None"),
-            _ => assert!(is_invalid_config(&r), "parse_duration refuses other types (and the string \"x\")"),
-        }
-        std::mem::forget(r);
-        // string-typed address parsers.  For the String kind ("x") only the ones that do not go through
-        // str::split / str::contains are run: the CharSearcher loop nest does not finish under CBMC even on a
-        // concrete one-character string (measured), see the report.
-        let r = parse_string_ip("k", &y);
-        assert!(if is_null { matches!(r, Ok(None)) } else { is_invalid_config(&r) }, "parse_string_ip");
-        std::mem::forget(r);
-        let r = parse_string_ip4("k", &y);
-        assert!(if is_null { matches!(r, Ok(None)) } else { is_invalid_config(&r) }, "parse_string_ip4");
-        std::mem::forget(r);
-        let r = parse_string_ip6("k", &y);
-        assert!(if is_null { matches!(r, Ok(None)) } else { is_invalid_config(&r) }, "parse_string_ip6");
-        std::mem::forget(r);
-        if k != KIND_STR {
-            let r = parse_string_hwaddr("k", &y);
-            assert!(if is_null { matches!(r, Ok(None)) } else { is_invalid_config(&r) }, "parse_string_hwaddr");
+        if deep {
+            // k is Null or the string "x" here
+            let r = parse_duration("k", &y);
+            assert!(if is_null { matches!(r, Ok(None)) } else { is_invalid_config(&r) }, "parse_duration: null is None, x is refused");
             std::mem::forget(r);
-            let r = parse_string_prefix("k", &y);
-            assert!(if is_null { matches!(r, Ok(None)) } else { is_invalid_config(&r) }, "parse_string_prefix");
+            let r = parse_string_ip("k", &y);
+            assert!(if is_null { matches!(r, Ok(None)) } else { is_invalid_config(&r) }, "parse_string_ip");
             std::mem::forget(r);
-            let r = parse_string_prefix4("k", &y);
-            assert!(if is_null { matches!(r, Ok(None)) } else { is_invalid_config(&r) }, "parse_string_prefix4");
+            let r = parse_string_ip4("k", &y);
+            assert!(if is_null { matches!(r, Ok(None)) } else { is_invalid_config(&r) }, "parse_string_ip4");
             std::mem::forget(r);
-            let r = parse_string_prefix6("k", &y);
-            assert!(if is_null { matches!(r, Ok(None)) } else { is_invalid_config(&r) }, "parse_string_prefix6");
+            let r = parse_string_ip6("k", &y);
+            assert!(if is_null { matches!(r, Ok(None)) } else { is_invalid_config(&r) }, "parse_string_ip6");
             std::mem::forget(r);
-            let r = parse_string_sockaddr("k", &y);
-            assert!(if is_null { matches!(r, Ok(None)) } else { is_invalid_config(&r) }, "parse_string_sockaddr");
-            std::mem::forget(r);
+            if is_null {
+                // on a string these go through str::split / str::contains (not reachable, see below)
+                let r = parse_string_hwaddr("k", &y);
+                assert!(matches!(r, Ok(None)), "parse_string_hwaddr: null is None");
+                std::mem::forget(r);
+                let r = parse_string_prefix("k", &y);
+                assert!(matches!(r, Ok(None)), "parse_string_prefix: null is None");
+                std::mem::forget(r);
+                let r = parse_string_prefix4("k", &y);
+                assert!(matches!(r, Ok(None)), "parse_string_prefix4: null is None");
+                std::mem::forget(r);
+                let r = parse_string_prefix6("k", &y);
+                assert!(matches!(r, Ok(None)), "parse_string_prefix6: null is None");
+                std::mem::forget(r);
+                let r = parse_string_sockaddr("k", &y);
+                assert!(matches!(r, Ok(None)), "parse_string_sockaddr: null is None");
+                std::mem::forget(r);
+            }
         }
         std::mem::forget(y);
     }
 
-    /// VERIF: {"p":"C19","tier":"quick","fns":["config::parse_i64","config::parse_num::<u8>","config::parse_num::<u32>","config::parse_string","config::parse_boolean","config::parse_duration","config::parse_string_hwaddr","config::parse_string_ip","config::parse_string_ip4","config::parse_string_ip6","config::parse_string_prefix","config::parse_string_prefix4","config::parse_string_prefix6","config::parse_string_sockaddr","config::type_to_name"],"bounds":"each parser on one value of every scalar Yaml variant, one after the other: Real, Integer(any i64), String \"x\" (on which the hwaddr/prefix/sockaddr parsers are NOT run), Boolean(any), Alias(any), Null, BadValue","oracle":"right type => Ok(Some(value)); Null => Ok(None); every wrong type (and out-of-range integer) => Err(InvalidConfig); never a panic","stubs":["alloc::fmt::format -> empty string (message text only)"],"covers":1,"unwind":8}
+    /// VERIF: {"p":"C19","tier":"quick","fns":["config::parse_i64","config::parse_num::<u8>","config::parse_num::<u32>","config::parse_string","config::parse_boolean","config::type_to_name"],"bounds":"each primitive typed parser on, one after the other: Real, Integer(any i64), Boolean(any), Alias(any), BadValue","oracle":"right type => Ok(Some(value)); every wrong type (and out-of-range integer) => Err(InvalidConfig); never a panic","stubs":["alloc::fmt::format -> empty string (message text only)"],"covers":1,"unwind":8}
     #[kani::proof]
     #[kani::unwind(8)]
     #[kani::stub(alloc::fmt::format, empty_format)]
     fn c19_scalar_parsers_wrong_scalar() {
-        scalar_parsers_on(KIND_REAL);
-        scalar_parsers_on(KIND_INT);
-        scalar_parsers_on(KIND_STR);
-        scalar_parsers_on(KIND_BOOL);
-        scalar_parsers_on(KIND_ALIAS);
-        scalar_parsers_on(KIND_NULL);
-        scalar_parsers_on(KIND_BAD);
+        scalar_parsers_on(KIND_REAL, false);
+        scalar_parsers_on(KIND_INT, false);
+        scalar_parsers_on(KIND_BOOL, false);
+        scalar_parsers_on(KIND_ALIAS, false);
+        scalar_parsers_on(KIND_BAD, false);
         kani::cover!(true, "every call returned");
     }
 
-    /// VERIF: {"p":"C19","tier":"quick","fns":["config::parse_i64","config::parse_num::<u8>","config::parse_num::<u32>","config::parse_string","config::parse_boolean","config::parse_duration","config::parse_string_hwaddr","config::parse_string_ip","config::parse_string_ip4","config::parse_string_ip6","config::parse_string_prefix","config::parse_string_prefix4","config::parse_string_prefix6","config::parse_string_sockaddr","config::type_to_name"],"bounds":"each parser on a collection where a scalar is expected, one after the other: `[~]`, `[<any int>, \"\"]`, `[[true]]`, `[\"a\",\"b\"]` and the empty mapping; every sequence NON-empty","oracle":"Err(InvalidConfig); never a panic","stubs":["alloc::fmt::format -> empty string (message text only)","std::hash::RandomState::new -> fixed keys (creating the empty Hash)"],"covers":1,"unwind":8}
+    /// VERIF: {"p":"C19","tier":"quick","fns":["config::parse_i64","config::parse_num","config::parse_string","config::parse_boolean","config::parse_duration","config::parse_string_ip","config::parse_string_ip4","config::parse_string_ip6","config::parse_string_hwaddr","config::parse_string_prefix","config::parse_string_prefix4","config::parse_string_prefix6","config::parse_string_sockaddr","config::str_ip","config::str_duration"],"bounds":"every typed parser on Null, and every typed parser except hwaddr/prefix/sockaddr on the string \"x\"","oracle":"Null => Ok(None) everywhere; \"x\" => Ok(Some) for parse_string, Err(InvalidConfig) for the others; never a panic","stubs":["alloc::fmt::format -> empty string (message text only)"],"covers":1,"unwind":8}
+    #[kani::proof]
+    #[kani::unwind(8)]
+    #[kani::stub(alloc::fmt::format, empty_format)]
+    fn c19_scalar_parsers_null_and_string() {
+        scalar_parsers_on(KIND_NULL, true);
+        scalar_parsers_on(KIND_STR, true);
+        kani::cover!(true, "every call returned");
+    }
+
+    /// VERIF: {"p":"C19","tier":"quick","fns":["config::parse_i64","config::parse_num::<u8>","config::parse_num::<u32>","config::parse_string","config::parse_boolean","config::type_to_name"],"bounds":"each primitive typed parser on a collection where a scalar is expected, one after the other: `[~]`, `[<any int>, \"\"]`, `[[true]]`, `[\"a\",\"b\"]` and the empty mapping; every sequence NON-empty","oracle":"Err(InvalidConfig); never a panic","stubs":["alloc::fmt::format -> empty string (message text only)","std::hash::RandomState::new -> fixed keys (creating the empty Hash)"],"covers":1,"unwind":8}
     #[kani::proof]
     #[kani::unwind(8)]
     #[kani::stub(alloc::fmt::format, empty_format)]
     #[kani::stub(std::hash::RandomState::new, fixed_random_state)]
     fn c19_scalar_parsers_wrong_collection() {
-        scalar_parsers_on(KIND_ARR_NULL);
-        scalar_parsers_on(KIND_ARR_MIXED);
-        scalar_parsers_on(KIND_HASH_EMPTY);
-        scalar_parsers_on(KIND_ARR_NESTED);
-        scalar_parsers_on(KIND_ARR_STRS);
+        scalar_parsers_on(KIND_ARR_NULL, false);
+        scalar_parsers_on(KIND_ARR_MIXED, false);
+        scalar_parsers_on(KIND_HASH_EMPTY, false);
+        scalar_parsers_on(KIND_ARR_NESTED, false);
+        scalar_parsers_on(KIND_ARR_STRS, false);
         kani::cover!(true, "every call returned");
     }
 
-    /// VERIF: {"p":"C19","tier":"quick","fns":["config::parse_i64","config::parse_num","config::parse_string","config::parse_boolean","config::parse_duration","config::parse_string_*","config::type_to_name"],"bounds":"each typed scalar parser on the empty sequence `[]` (e.g. `hop-limit: []`, `captive-portal: []`)","oracle":"Err(InvalidConfig), never a panic","stubs":["alloc::fmt::format -> empty string (message text only)"],"covers":1,"unwind":8}
+    /// VERIF: {"p":"C19","tier":"quick","fns":["config::parse_i64","config::parse_num::<u8>","config::parse_num::<u32>","config::parse_string","config::parse_boolean","config::type_to_name"],"bounds":"each primitive typed parser on the empty sequence `[]` (e.g. `hop-limit: []`, `captive-portal: []`)","oracle":"Err(InvalidConfig), never a panic","stubs":["alloc::fmt::format -> empty string (message text only)"],"covers":0,"unwind":8}
     #[kani::proof]
     #[kani::unwind(8)]
     #[kani::stub(alloc::fmt::format, empty_format)]
     fn c19_scalar_parsers_empty_array() {
-        kani::cover!(kani::any::<u8>() == 0xA5, "reached");
-        scalar_parsers_on(KIND_ARR_EMPTY);
+        scalar_parsers_on(KIND_ARR_EMPTY, false);
     }
 
     fn array_parser_on(k: u8) {
@@ -371,22 +377,21 @@ mod k {
         let r = parse_array("k", &y, parse_string);
         match k {
             KIND_NULL => assert!(matches!(r, Ok(None)), "parse_array: null is None"),
-            KIND_ARR_STRS => assert!(matches!(&r, Ok(Some(v)) if v.len() == 2 && v[0].len() == 1), "parse_array returns every element"),
             KIND_ARR_EMPTY => assert!(matches!(&r, Ok(Some(v)) if v.is_empty()), "parse_array: [] is an empty list"),
-            _ => assert!(is_invalid_config(&r), "parse_array refuses non-arrays, null elements and wrongly typed elements"),
+            _ => assert!(is_invalid_config(&r), "parse_array refuses non-arrays with InvalidConfig"),
         }
         std::mem::forget(r);
         let r = parse_array("k", &y, parse_num::<u16>);
         match k {
             KIND_NULL => assert!(matches!(r, Ok(None)), "parse_array: null is None"),
             KIND_ARR_EMPTY => assert!(matches!(&r, Ok(Some(v)) if v.is_empty()), "parse_array: [] is an empty list"),
-            _ => assert!(is_invalid_config(&r), "parse_array(parse_num) refuses everything else offered here"),
+            _ => assert!(is_invalid_config(&r), "parse_array(parse_num) refuses non-arrays with InvalidConfig"),
         }
         std::mem::forget(r);
         std::mem::forget(y);
     }
 
-    /// VERIF: {"p":"C19","tier":"quick","fns":["config::parse_array","config::parse_string","config::parse_num::<u16>","config::type_to_name"],"bounds":"parse_array with element parsers parse_string and parse_num::<u16> on, one after the other: Real, Integer(any), String, Boolean(any), Alias(any), Null, BadValue, the empty mapping, `[]`, `[~]`, `[<any int>, \"\"]`, `[\"a\",\"b\"]`, `[[true]]`","oracle":"Null => Ok(None); array of right-typed elements => Ok(Some(all elements)); `[]` => Ok(Some([])); null element, wrong element type, non-array => Err(InvalidConfig); never a panic","stubs":["alloc::fmt::format -> empty string (message text only)","std::hash::RandomState::new -> fixed keys (creating the empty Hash)"],"covers":1,"unwind":8}
+    /// VERIF: {"p":"C19","tier":"quick","fns":["config::parse_array","config::type_to_name"],"bounds":"parse_array (element parsers parse_string and parse_num::<u16>) on, one after the other: Real, Integer(any), String, Boolean(any), Null, the empty mapping and the EMPTY sequence `[]`. Non-empty sequences are NOT covered: the map/collect/drain/shrink_to_fit chain does not finish under CBMC even for one element (measured: `[~]`, `[\"a\",\"b\"]`, `[<int>, \"\"]`, `[[]]` all time out)","oracle":"Null => Ok(None); `[]` => Ok(Some([])); non-array => Err(InvalidConfig); never a panic","stubs":["alloc::fmt::format -> empty string (message text only)","std::hash::RandomState::new -> fixed keys (creating the empty Hash)"],"covers":1,"unwind":8}
     #[kani::proof]
     #[kani::unwind(8)]
     #[kani::stub(alloc::fmt::format, empty_format)]
@@ -396,25 +401,10 @@ mod k {
         array_parser_on(KIND_INT);
         array_parser_on(KIND_STR);
         array_parser_on(KIND_BOOL);
-        array_parser_on(KIND_ALIAS);
         array_parser_on(KIND_NULL);
-        array_parser_on(KIND_BAD);
         array_parser_on(KIND_HASH_EMPTY);
         array_parser_on(KIND_ARR_EMPTY);
-        array_parser_on(KIND_ARR_NULL);
-        array_parser_on(KIND_ARR_MIXED);
-        array_parser_on(KIND_ARR_STRS);
-        array_parser_on(KIND_ARR_NESTED);
         kani::cover!(true, "every call returned");
-    }
-
-    /// VERIF: {"p":"C19","tier":"quick","fns":["config::parse_array","config::parse_string","config::type_to_name"],"bounds":"parse_array(parse_string) on `[[]]` (a list whose element is an empty list, e.g. `dns-search: [[]]`)","oracle":"Err(InvalidConfig), never a panic","stubs":["alloc::fmt::format -> empty string (message text only)"],"covers":1,"unwind":8}
-    #[kani::proof]
-    #[kani::unwind(8)]
-    #[kani::stub(alloc::fmt::format, empty_format)]
-    fn c19_parse_array_of_empty_array() {
-        kani::cover!(kani::any::<u8>() == 0xA5, "reached");
-        array_parser_on(KIND_ARR_ARR_EMPTY);
     }
 
     /// VERIF: {"p":"C19","tier":"quick","fns":["config::parse_num::<u8>","config::parse_num::<u16>","config::parse_num::<u32>","config::parse_num::<i32>","config::parse_i64"],"bounds":"Yaml::Integer(i) for all 2^64 i","oracle":"Ok(Some(i)) exactly when i fits the target type, Err(InvalidConfig) otherwise; never a panic or a silent truncation","stubs":["alloc::fmt::format -> empty string (message text only)"],"covers":2}
@@ -493,11 +483,14 @@ mod k {
         Some(total + cur.unwrap_or(0))
     }
 
-    fn duration_total<const N: usize>() {
+    // -> accepted?
+    fn duration_total<const N: usize>() -> bool {
         let (s, _b) = ascii::<N>();
         let r = str_duration(Some(s));
         assert!(matches!(r, Ok(Some(_)) | Err(Error::InvalidConfig(_))), "str_duration: a duration or InvalidConfig");
+        let ok = r.is_ok();
         std::mem::forget(r);
+        ok
     }
 
     /// VERIF: {"p":"C19","tier":"quick","fns":["config::str_duration"],"bounds":"every ASCII string of length 0,1,2,3,4 (all 128 values per octet; one instance per length, run one after the other)","oracle":"Ok(duration) or Err(InvalidConfig): never a panic (unwrap, arithmetic overflow)","stubs":["alloc::fmt::format -> empty string (message text only)"],"covers":1,"unwind":7}
@@ -505,12 +498,12 @@ mod k {
     #[kani::unwind(7)]
     #[kani::stub(alloc::fmt::format, empty_format)]
     fn c19_str_duration_total_short() {
-        kani::cover!(kani::any::<u8>() == 0xA5, "reached");
-        duration_total::<0>();
-        duration_total::<1>();
-        duration_total::<2>();
-        duration_total::<3>();
-        duration_total::<4>();
+        let ok0 = duration_total::<0>();
+        let _ = duration_total::<1>();
+        let _ = duration_total::<2>();
+        let _ = duration_total::<3>();
+        let ok4 = duration_total::<4>();
+        kani::cover!(ok0 && !ok4, "empty string accepted, a 4-character string refused");
     }
 
     // -> (value the reference assigns, or None when it refuses)
@@ -565,15 +558,14 @@ mod k {
         kani::cover!(w4 == Some(3 * 604800 + 2), "3w 2 / 3w2s");
     }
 
-    /// VERIF: {"p":"C19","tier":"thorough","fns":["config::str_duration"],"bounds":"every ASCII string of length 5 and 6 in which each unit letter that precedes the first foreign character has a digit between it and the previous unit letter","oracle":"as c19_str_duration_value_wellformed_short","stubs":["alloc::fmt::format -> empty string (message text only)"],"covers":2,"unwind":9}
+    /// VERIF: {"p":"C19","tier":"thorough","fns":["config::str_duration"],"bounds":"every ASCII string of length 5 in which each unit letter that precedes the first foreign character has a digit between it and the previous unit letter","oracle":"as c19_str_duration_value_wellformed_short","stubs":["alloc::fmt::format -> empty string (message text only)"],"covers":2,"unwind":9}
     #[kani::proof]
     #[kani::unwind(9)]
     #[kani::stub(alloc::fmt::format, empty_format)]
-    fn c19_str_duration_value_wellformed_len5_6() {
+    fn c19_str_duration_value_wellformed_len5() {
         let w5 = duration_value::<5>();
-        let w6 = duration_value::<6>();
         kani::cover!(w5 == Some(5400), "1h30m / 1h 30 ...");
-        kani::cover!(w6 == Some(86400 + 7200 + 3), "1d2h3s / 1d2h 3");
+        kani::cover!(w5 == Some(86400 + 7200), "1d 2h / 1d_2h");
     }
 
     // text -> Vec, then D symbolic decimal digits, the first one at most `first_max`
@@ -634,19 +626,16 @@ mod k {
         run_duration(v);
     }
 
-    /// VERIF: {"p":"C19","tier":"quick","fns":["config::str_duration"],"bounds":"two terms `1500000000000Dw155005689049DDw` with D symbolic digits: each term alone is about 9e18 s (< 2^64), the sum of the two ranges over 30500568904900..=30500568905008 weeks, i.e. across 2^64 s = 30500568904943.04 weeks","oracle":"Ok or Err(InvalidConfig): a sum that does not fit is refused, not a panic (Duration += panics with 'overflow when adding durations' in every build profile)","stubs":["alloc::fmt::format -> empty string (message text only)"],"covers":1,"unwind":33}
+    /// VERIF: {"p":"C19","tier":"quick","fns":["config::str_duration"],"bounds":"two terms `15000000000000w155005689049DDw` with DD two symbolic digits: each term alone is about 9e18 s (< 2^64), the sum ranges over 30500568904900..=30500568904999 weeks, i.e. across 2^64 s = 30500568904943.04 weeks","oracle":"Ok or Err(InvalidConfig): a sum that does not fit is refused, not a panic (Duration += panics with 'overflow when adding durations' in every build profile)","stubs":["alloc::fmt::format -> empty string (message text only)"],"covers":1,"unwind":33}
     #[kani::proof]
     #[kani::unwind(33)]
     #[kani::stub(alloc::fmt::format, empty_format)]
     fn c19_str_duration_sum_of_terms() {
         let mut v = Vec::with_capacity(30);
-        push_text(&mut v, "1500000000000");
-        push_digits::<1>(&mut v, 9);
-        v.push(b'w');
-        push_text(&mut v, "155005689049");
+        push_text(&mut v, "15000000000000w155005689049");
         push_digits::<2>(&mut v, 9);
         v.push(b'w');
-        kani::cover!(v[13] == b'0' && v[27] == b'4' && v[28] == b'3', "15000000000000w15500568904943w = 2^64 - 25216 s fits");
+        kani::cover!(v[27] == b'4' && v[28] == b'3', "15000000000000w15500568904943w = 2^64 - 25216 s fits");
         run_duration(v);
     }
 
